@@ -21,13 +21,13 @@ theorem tagDefs : C.NULL_TAG = 0 ∧ C.STRING_TAG = 268435456 ∧ C.NUMBER_TAG =
 
 theorem sca_lt : C.SCALAR_CONTAINER_TAG < 4294967296 := by decide
 
-theorem encodeSpec_scalar (v : JV) (hs : isScalar v = true) :
+theorem encodeSpec_scalarA (v : JV) (hs : isScalar v = true) :
     encodeSpec v = u32be C.SCALAR_CONTAINER_TAG ++ (u32be (entry v).1 ++ ((entry v).2 ++ [])) := by
   cases v <;> simp_all [isScalar, encodeSpec]
 
 theorem hdr_scalar (v : JV) (hs : isScalar v = true) :
     readU32At (encodeSpec v) 0 = some C.SCALAR_CONTAINER_TAG := by
-  rw [encodeSpec_scalar v hs]; exact readU32At_zero _ _ sca_lt
+  rw [encodeSpec_scalarA v hs]; exact readU32At_zero _ _ sca_lt
 
 theorem hdr_arr (vs : List JV) (hn : vs.length < 536870912) :
     readU32At (encodeSpec (arr vs)) 0 = some (C.ARRAY_CONTAINER_TAG + vs.length) := by
@@ -45,7 +45,7 @@ theorem scalarWord_scalar (v : JV) (hs : isScalar v = true) (hg : goodTop v = tr
   have hgv := goodTop_scalar v hs hg
   have hl := elen_lt_of_good v hgv
   simp only [Fn.scalarWord, hdr_scalar v hs, hdrType_sca, if_true]
-  rw [encodeSpec_scalar v hs]
+  rw [encodeSpec_scalarA v hs]
   exact readU32At_mid _ _ _ 4 (by simp) (entry_lt v hl)
 
 theorem scalarWord_arr (vs : List JV) (hn : vs.length < 536870912) :
@@ -60,7 +60,7 @@ theorem scalarWord_obj (kvs : List (Bytes × JV)) (hn : kvs.length < 536870912) 
 
 theorem slice_payload (v : JV) (hs : isScalar v = true) :
     slice (encodeSpec v) 8 (8 + elen v) = .ok (entry v).2 := by
-  rw [encodeSpec_scalar v hs]
+  rw [encodeSpec_scalarA v hs]
   have e : u32be C.SCALAR_CONTAINER_TAG ++ (u32be (entry v).1 ++ ((entry v).2 ++ []))
       = (u32be C.SCALAR_CONTAINER_TAG ++ u32be (entry v).1) ++ ((entry v).2 ++ []) := by simp
   rw [e]
